@@ -69,6 +69,25 @@ MORE      for .. else / break (py_for_b);  variables bound inside a loop and rea
           `assert <cond>`;  `l[i] = v`, `l += e`, `l.extend(e)`, `list(e)`, `[e1, ..]`, `[]` on lists built in the function;
           `deepcopy(e)` = e;  `l * n`;  v[i], v[a:b], v[a:b:s], len, iteration, `.keys()`, iteritems on dynamic values;  arithmetic with a
           None-able operand (TypeError);  `x == e` narrows an option-typed x in its branch;  tuple displays as loop sequences.
+STAGE D   (the insertion / merge methods)
+          token   numeric data outside the translation that is only ever compared with np.allclose (a slice normal): a nat, equal exactly
+                  when allclose holds; `np.allclose(a, b)` on two tokens is Nat.eqb.  Numeric bookkeeping declared opaque
+                  (Fn.opaque_vars + opaque attributes: affine / reorient_transform in from_sequence) is SKIPPED, after a syntactic check
+                  that the statement stores only into such variables / attributes and calls nothing but np.allclose.
+          lists of the state reached through a name (Fn.alias_vars): `x, c = self.get_values_and_class(k)`, `x = self.get_values(k)`
+                  (both checked on the source to return the stored object: Fn.returns_stored), `x = self.get_class_dict(C)[k]`; then
+                  `x.extend(e)` / `self.get_values(k).extend(e)` -> dyn_extend + the list is stored back under its key.  Fail-closed: the
+                  name reaches the list only until the next change of the state on the path; other names that may reach the same list
+                  cannot be read after the extension.
+          `<inst>._content[a][b] = v` (a whole class dictionary: dyn_setc2);  a dictionary built in the function (Fn.local_dicts:
+                  `x = {}`, `x[k] = v`, `x[k]`);  instance parameters whose content the function changes and restores
+                  (Fn.mutable_objs);  `set(a) - set(b)` (py_diff; the iteration order of a set is NOT modelled: first-insertion order);
+                  a LIST OF INSTANCES as parameter (`seq[0]`, `for x in seq[1:]`: an instance is the tuple of its header attributes
+                  and its content);  class methods (Fn.classmethod: `klass` is read as `self`);  `<local instance>.<attr> = v` through
+                  the property setter, whose check is declared (new_object['setters']) and VERIFIED on the source, with the derived
+                  attributes recomputed;  `l.append(e)`, `l[i] op= e`, element stores carried by loops;  `x is not None and ..`
+                  narrows x in the rest of the expression;  `x in L` narrows an option-typed x;  `None in <list>` is False;
+                  `<option pair>[i]` (None[i]: TypeError);  `{}` as a value;  a dynamic value where the callee takes a str (dyn_as_str).
 Everything that can raise becomes a monadic bind, emitted in Python's evaluation order."""
 import ast, re
 from astlib import TableError, find_func, cstr, cnat, cq, float_lit_exact
